@@ -34,6 +34,7 @@ import (
 	"verif/internal/gram"
 	"verif/internal/lexcheck"
 	"verif/internal/lexconc"
+	"verif/internal/ops"
 	"verif/internal/stmts"
 )
 
@@ -374,6 +375,7 @@ func main() {
 	}
 	recoveryUnwrap(byStage["parse"])
 	causeChains(byStage, tier)
+	keptInstance(byStage, tier)
 	cancellation()
 	run.Traces(int64(len(pairs)))
 	run.Exhaustive = false
@@ -634,4 +636,53 @@ func breakLines(text string, n int) string {
 		}
 	}
 	return string(b)
+}
+
+// keptInstance: "the same input always produces the same code, message and location" on a parser its holder keeps across
+// calls, and for the statements of one script in recovery mode: what an earlier input did - above all one rejected at the
+// nesting limit inside each kind of construct - does not show in the error of the next.
+func keptInstance(byStage map[string][]input, tier string) {
+	call := func(p *parser.Parser, sql string) entry.Outcome {
+		t := tokenizer.GetTokenizer()
+		toks, err := t.Tokenize([]byte(sql))
+		tokenizer.PutTokenizer(t)
+		if err != nil {
+			return entry.Outcome{Err: "tokenizer: " + err.Error()}
+		}
+		tree, perr := p.ParseFromModelTokens(toks)
+		if perr == nil {
+			_ = tree
+			return entry.Outcome{Accept: true}
+		}
+		e := ops.Err(perr)
+		return entry.Outcome{Code: e.Code, Msg: e.Msg, Line: e.Line, Col: e.Col, Err: perr.Error()}
+	}
+	var firsts []input
+	firsts = append(firsts, byStage["depth"]...)
+	if tier != "thorough" && len(firsts) > 24 {
+		firsts = firsts[:24]
+	}
+	firsts = append(firsts, byStage["nested"][:8]...)
+	seconds := []input{byStage["parse"][0], byStage["parse"][len(byStage["parse"])/2], {"accept", "SELECT a FROM t WHERE b = 1 OR c = 2", "valid"},
+		{"parse", "SELECT a FROM t WHERE", "grammar"}, {"parse", "SELECT f(a, (b + ), c) FROM t", "grammar"}}
+	n := 0
+	for _, x := range firsts {
+		for _, y := range seconds {
+			fresh := call(parser.NewParser(), y.text)
+			p := parser.NewParser()
+			for rep := 0; rep < 3; rep++ { // a leak of a few levels per failure needs several failures to show
+				_ = call(p, x.text)
+			}
+			got := call(p, y.text)
+			run.Eval(2)
+			n++
+			run.Nontrivial("kept\x00" + x.text + "\x00" + y.text)
+			if got.Accept != fresh.Accept || got.Code != fresh.Code || got.Msg != fresh.Msg || got.Line != fresh.Line || got.Col != fresh.Col {
+				run.Violate(core.Violation{Sig: "error-depends-on-parser-history|kept-instance|after-" + x.stage, Clause: "the same input always produces the same code, message and location",
+					Case:    map[string]any{"entry_point": "Parser.ParseFromModelTokens on a kept instance", "input": firstN(y.text, 200), "earlier_input_three_times": firstN(x.text, 200), "earlier_origin": x.origin},
+					Observe: fmt.Sprintf("%s@%d:%d %s (accepted=%v)", got.Code, got.Line, got.Col, firstN(got.Msg, 100), got.Accept), Expect: fmt.Sprintf("%s@%d:%d %s (accepted=%v)", fresh.Code, fresh.Line, fresh.Col, firstN(fresh.Msg, 100), fresh.Accept)})
+			}
+		}
+	}
+	run.Extra["kept_instance_pairs"] = n
 }
